@@ -136,7 +136,7 @@ def check(model, R, tier):
             okh = okh and vst is not None and ('%s is not None' % vl, True) in {(t, p) for t, p, _ in facts_at(fcfg, vst)}
         R.ob('C20.HISTORY', fit.qualname, 'record_metrics(train) every epoch; record_metrics(val) iff validation_loader', okh, 'history must get one entry per epoch for every metric', fit.loc)
         hinit = [n for n in body_walk(fit.node) if isinstance(n, ast.Assign) and norm(n.targets[0]) == 'self.history' and norm(n.value) in ('{}', 'dict()')]
-        R.ob('C20.HISTORY', fit.qualname, 'self.history = {} before the epochs', bool(hinit) and bool(eloops) and fcfg.dominates(hinit[0], eloops[0]) and not fcfg.in_loop(hinit[0]), 'history starts empty for each fit', fit.loc)
+        R.ob('C20.HISTORY', fit.qualname, 'self.history = {} before the epochs', len(hinit) == 1 and bool(eloops) and fcfg.dominates(hinit[0], eloops[0]) and not fcfg.in_loop(hinit[0]) and len([n for n in ast.walk(fit.node) if isinstance(n, ast.Assign) and norm(n.targets[0]) == 'self.history']) == 1, 'history starts empty once per fit and is never re-created inside the epoch loop', fit.loc)
         last = fit.node.body[-1]
         R.ob('C20.HISTORY', fit.qualname, norm(last), isinstance(last, ast.Return) and norm(last.value) == 'self.history', 'fit returns the history', fit.loc)
     for f, key, acc_name in ((tr, "'loss'", None), (va, "'val_loss'", None)):
